@@ -380,6 +380,28 @@ def rule_tick_str(ctx, crate, rule="R-TICK-STR"):
         sl = b.slice_args(c, [1])
         ctx.check(sl.has_field("tick", "state::ProgressState"), rule, "tick-index", b.name, c.loc(), "the running tick string is indexed by state.tick",
                   "the running tick string is not indexed by the bar's tick counter", cfg)
+    # "the final tick string once finished" - and only then: the running cycle is over all tick strings but the last
+    # (`tick % (len - 1)`), the final one is the last (`len - 1`)
+    from .. import affine as A_
+
+    def len_minus_one(bd, op, at):
+        f = A_.linform(bd, op, at)
+        atoms = {k: v for k, v in f.items() if k != 1}
+        return f.get(1) == -1 and len(atoms) == 1 and all(v == 1 and isinstance(k, tuple) and k[0] == "call" and k[1].endswith("::len") for k, v in atoms.items())
+    g = K.find_one(ctx, crate, rule, r"style::ProgressStyle::get_tick_str")
+    if g:
+        rems = [(i, s) for i, j, s in g.assigns() if s["rv"]["k"] == "bin" and s["rv"]["op"] == "Rem"]
+        ok = bool(rems) and all(len_minus_one(g, s["rv"]["b"], i) for i, s in rems)
+        ctx.check(ok, rule, "running-cycle-excludes-final", g.name, K.fn_loc(g),
+                  "the running tick string is tick_strings[tick % (len - 1)]: the last string is reserved for the finished state",
+                  "the running spinner cycles through all tick strings including the last one (modulus is not len - 1): an unfinished bar shows the final tick "
+                  "string every len-th tick (the default spinner goes blank at tick 29, 59, ..) and the animation is phase-shifted afterwards", cfg)
+    gf = K.find_one(ctx, crate, rule, r"style::ProgressStyle::get_final_tick_str")
+    if gf:
+        idx = [c for c in gf.calls(r"std::ops::Index::index", r"<std::vec::Vec<T, A> as std::ops::Index<I>>::index", r"core::slice::index::.*index")]
+        ok = bool(idx) and all(len(c.args) > 1 and len_minus_one(gf, c.args[1], c.bb) for c in idx)
+        ctx.check(ok, rule, "final-is-last", gf.name, K.fn_loc(gf), "the final tick string is tick_strings[len - 1]",
+                  "the final tick string is not the last of the tick strings", cfg)
     bs = K.find_one(ctx, crate, rule, r"state::BarState::tick")
     if bs:
         st = [(i, s) for i, j, s in bs.assigns() if [f[2] for f in place_fields(s["lhs"])][-1:] == ["tick"]]
